@@ -65,20 +65,44 @@ def ratio(n, d):
 
 
 def ratios(ctx, dn):
+    """the statistics are evaluated on the SAME live object at several points of its history (query, update,
+    query again ...), as a monitor riding along a real program would see them"""
     rng = ctx.rng
     prog, fam = gen.random_program(rng, lambda: Model(False, True), directed=False,
                                    family=rng.choice(("int", "str", "negint", "tuple", "str_")), with_nodes=False)
     prog = [op for op in prog if not any(u == v for (u, v, t, e) in gen.elements(op))]
-    G, m, ok = driver.build_accepted(dn, prog, False)
-    if not ok or not m.nontrivial():
-        ctx.skip("graph not built")
+    if not prog:
         return
-    if rng.random() < 0.4:
+    G = driver.new_graph(dn, False, True)
+    m = Model(False, True)
+    ctx.cases += 1
+    ctx.case = dict(workload="RATIOS", program=prog)
+    cuts = sorted(set([len(prog)] + [rng.randint(1, len(prog)) for _ in range(2)]))
+    done = 0
+    for cut in cuts:
+        for op in prog[done:cut]:
+            m2 = m.copy()
+            if gen.advance(m2, op) is not None:
+                continue
+            got, ex = driver.outcome(dn, G, op)
+            if got is not None:
+                ctx.skip("graph not built")
+                return
+            driver._adopt(m, m2)
+        done = cut
+        if m.nontrivial():
+            ctx.case["evaluated_after_ops"] = cut
+            evaluate_ratios(ctx, dn, G, m, last=(cut == len(prog)))
+    if len(ctx.samples) < 3:
+        ctx.sample(ctx.case)
+
+
+def evaluate_ratios(ctx, dn, G, m, last):
+    rng = ctx.rng
+    if last and rng.random() < 0.4:
         G.add_node("lonely")
         m.add_node("lonely")
         ctx.cell("state:isolated")
-    ctx.cases += 1
-    ctx.case = dict(workload="RATIOS", program=prog)
     T = m.ids()
     V = list(m.nodes)
     St = {t: m.static(t) for t in T}
@@ -122,8 +146,6 @@ def ratios(ctx, dn):
         stat(ctx, "snapshot_density", lambda: G.snapshot_density(t), Fraction(nx.density(sub)).limit_denominator(10 ** 6),
              dict(t=t))
     ctx.nontrivial(m.state_key(), "ratios")
-    if len(ctx.samples) < 3:
-        ctx.sample(ctx.case)
 
 
 def hist(events):
